@@ -5,6 +5,7 @@ import BorshModel.Theorems.C01
 import BorshModel.Lemmas.Safe
 import BorshModel.Lemmas.ReverseMain
 import BorshModel.Lemmas.StrictLax
+import BorshModel.Lemmas.StrictDev
 namespace Borsh
 
 /-- (⇐) every valid encoding is accepted and yields the value the specification assigns -/
@@ -105,6 +106,28 @@ theorem C04_mode_irrelevant_without_order (t : Ty) (h : noOrderCheck t = true) (
     fromSlice false t bs = fromSlice true t bs := by
   unfold fromSlice deserialize
   rw [mode_irrelevant_all Rd.slice t h]
+
+/-- **The only additional inputs the lax mode accepts are unsorted or repeated entries**: for
+every type and every byte string, strict mode answers exactly as lax mode does, or it answers with
+the key-order rejection — nothing else ever differs (values, other errors, leftover handling). -/
+theorem C04_modes_differ_only_by_key_order (t : Ty) (bs : Bytes) :
+    fromSlice true t bs = fromSlice false t bs ∨ fromSlice true t bs = .err eKeyOrder := by
+  unfold fromSlice deserialize
+  exact DevO.bind (strict_dev_all Rd.slice t bs) fun _ => DevO.refl _
+
+/-- … read from the lax side: an input accepted without strict ordering is either accepted with
+the same value under strict ordering, or rejected there *because of key order* -/
+theorem C04_lax_extra_inputs (t : Ty) (bs : Bytes) (v : Val) (h : fromSlice false t bs = .ok v) :
+    fromSlice true t bs = .ok v ∨ fromSlice true t bs = .err eKeyOrder := by
+  rcases C04_modes_differ_only_by_key_order t bs with h' | h'
+  · left; rw [h', h]
+  · right; exact h'
+
+/-- the same for any reader and for the streaming entry point -/
+theorem C04_modes_differ_only_by_key_order_reader {σ : Type} (rd : Rd σ) (t : Ty) (s : σ) :
+    deserializeReader rd true t s = deserializeReader rd false t s ∨
+    deserializeReader rd true t s = .err eKeyOrder :=
+  strict_dev_all rd t s
 
 /-- a tag byte other than 0/1 is never accepted for `bool` -/
 theorem C04_bool_tag (st : Bool) (b : UInt8) (rest : Bytes) (h0 : b ≠ 0) (h1 : b ≠ 1) :
